@@ -2,8 +2,8 @@ package c17
 
 import (
 	"encoding/json"
-	"os"
 	"fmt"
+	"os"
 	"sort"
 	"strings"
 	"testing"
